@@ -42,12 +42,12 @@ ASSUMPTIONS = [
 FLOORS = {"quick": {"compared": 4000, "compared_ok": 1200,
                     "compared_reject": 800, "unbalanced": 400,
                     "define_texts": 500},
-          "thorough": {"compared": 200000, "compared_ok": 60000,
-                       "compared_reject": 40000, "unbalanced": 20000,
-                       "define_texts": 20000}}
-N_MODELS = {"quick": 700, "thorough": 10000}
+          "thorough": {"compared": 300000, "compared_ok": 100000,
+                       "compared_reject": 100000, "unbalanced": 40000,
+                       "define_texts": 40000}}
+N_MODELS = {"quick": 700, "thorough": 20000}
 TEXTS = {"quick": 8, "thorough": 20}
-N_DEFINE = {"quick": 1500, "thorough": 40000}
+N_DEFINE = {"quick": 1500, "thorough": 80000}
 
 
 def shards(tier):
